@@ -46,6 +46,7 @@ CONSTANTS
   Walks <- cWalks
   Pims <- %(pims)s
   StrOrder <- cStrOrder
+  Fixes = {%(fixes)s}
 INVARIANTS TypeOK Emit
 CHECK_DEADLOCK FALSE
 """
@@ -126,14 +127,14 @@ def covering_star(key, pos_steps, n):
 class Sem:
     """one semantic universe: TLC run, replay, comparison"""
 
-    def __init__(self, ctx, harness, spec, tag):
-        self.ctx, self.harness, self.spec, self.tag = ctx, harness, spec, tag
+    def __init__(self, ctx, harness, spec, tag, fixes=()):
+        self.ctx, self.harness, self.spec, self.tag, self.fixes = ctx, harness, spec, tag, fixes
         self.meta = None
         self.cases = []
 
     def generate(self):
         ctx = self.ctx
-        cfg = CFG % self.spec
+        cfg = CFG % dict(self.spec, fixes=", ".join('"%s"' % f for f in sorted(self.fixes)))
         r = ctx.tlc(SPECDIR, "MC_FieldMask", "gen.cfg", files={"gen.cfg": cfg}, timeout=3000,
                     label="MC_FieldMask[%s]" % self.tag)
         for s in r["lines"]:
@@ -505,7 +506,17 @@ def robust(ctx, harness, qfile):
     for (row, cls, mut), o in zip(allrows, obs):
         ctx.count(1, "%s:%s%s" % (cls["input_kind"], cls["mutation"], ("/" + cls["under"]) if "under" in cls else ""))
         accepted[(row["k"], bool(o.get("accept")))] += 1
-        if o.get("panic"):
+        if o.get("hang"):
+            cl = dict(cls)
+            cl["stage"] = stage_class(o["stage"])
+            cl["outcome"] = "hang"
+            raw = bytes.fromhex(row["hex"])
+            if ctx.violation(cl, {"k": row["k"], "root": row.get("root"), "hex": row["hex"], "input": raw[:200].decode("latin-1"),
+                                  "mut": mut},
+                             {"hang": True, "stage": o["stage"]}, "the call returns (a mask or an error)",
+                             "%s input %r: %s does not return (20 s watchdog)" % (cls["input_kind"], raw[:80], o["stage"])):
+                nviol += 1
+        elif o.get("panic"):
             first = o["panic"].split("\n")[0]
             cl = dict(cls)
             cl["stage"] = stage_class(o["stage"])
@@ -549,6 +560,27 @@ def vacuity(sems):
             raise vlib.MachineryError("vacuous universe: no case with %s" % k)
 
 
+def probe_revision(ctx, harness):
+    """Which revision of the code does layer B have to transcribe?  (B is the implementation-shaped model; verdicts do
+    not depend on it, but a B that lags behind a repaired defect would make the B-honesty test cry wolf.)"""
+    qf = ctx.path("q-probe.json")
+    with open(qf, "w") as fh:
+        json.dump({"N": {"walks": [[["f", -1]], [["f", 1]]], "pims": []},
+                   "R": {"walks": [[["f", 2], ["f", 1]], [["f", 2], ["f", 2]]], "pims": []}}, fh)
+    casef, obsf = ctx.path("probe.ndjson"), ctx.path("probe-obs.ndjson")
+    vlib.write_ndjson(casef, [{"k": "sem", "root": "N", "black": False, "paths": ["$.neg"]},
+                              {"k": "sem", "root": "R", "black": True, "paths": ["$.s.a", "$.s"]}])
+    ctx.run([harness, "mask", casef, obsf], env={"VERIF_MASK_Q": qf})
+    o = vlib.read_ndjson(obsf)
+    fixes = set()
+    if not o[0].get("panic"):
+        fixes.add("negid")
+    if o[1].get("obs") and o[1]["obs"]["walks"][0] == "n":
+        fixes.add("prefixdrop")
+    vlib.log("layer B transcribes the revision with fixes: %s" % (sorted(fixes) or "none"))
+    return fixes
+
+
 def run(ctx, args):
     harness = ctx.build_harness("inproc")
     real_desc_f = ctx.path("desc.json")
@@ -558,8 +590,9 @@ def run(ctx, args):
         return replay(ctx, harness, json.load(open(args.replay)))
     nviol = 0
     sems = []
+    fixes = probe_revision(ctx, harness)
     for k, spec in enumerate(SEM_TIERS[ctx.tier]):
-        s = Sem(ctx, harness, spec, "u%d" % k)
+        s = Sem(ctx, harness, spec, "u%d" % k, fixes)
         s.generate()
         check_descriptor(s.meta, real_desc)
         sems.append(s)
